@@ -1343,7 +1343,7 @@ class Gen:
     PLANT_KINDS = ('div0_idiv', 'div0_mod', 'div0_fdiv', 'ovf_int', 'ovf_long',
                    'ovf_conv', 'ovf_mul', 'ovf_neg', 'ovf_sngband', 'subscript', 'ill_chr',
                    'ill_chr_hi', 'ill_asc', 'ill_mid', 'ill_space', 'ill_string',
-                   'ill_left', 'ill_instr', 'out_of_data', 'bad_data', 'data_ovf')
+                   'ill_left', 'ill_instr', 'out_of_data', 'bad_data', 'data_ovf', 'div0_dyndim')
     PLANT_TRAP = {'div0': 'DIVISION_BY_ZERO', 'ovf': 'INVALID_CELL_VALUE',
                   'subscript': 'INDEX_OUT_OF_RANGE', 'ill': 'INVALID_OPERAND_VALUE',
                   'out': 'DEVICE_ERROR', 'bad': 'DEVICE_ERROR', 'data': 'INVALID_CELL_VALUE'}
@@ -1355,6 +1355,7 @@ class Gen:
         r = self.r
         kinds = [k for k in self.PLANT_KINDS
                  if (k not in ('out_of_data', 'bad_data', 'data_ovf') or not self.data_items)
+                 and (k != 'div0_dyndim' or self.p.get('onerror_mode') in ('goto_next', 'resume_next'))
                  and (self.p['strings'] or not k.startswith('ill_') or k in ('ill_chr', 'ill_chr_hi'))]
         kind = kind or r.choice(kinds)
         fold = (r.random() < 0.3) if fold is None else fold
@@ -1377,6 +1378,20 @@ class Gen:
             return ['var', n]
 
         ty = '%'
+        self.post_plant = []
+        if kind == 'div0_dyndim':
+            # the DIM of a dynamic array fails while its bound is computed; the
+            # array is used afterwards (reached only when the error is handled)
+            an = self.fresh('dq', '%')
+            st = {'k': 'dim', 'shared': False, 'name': an, 'ty': '%', 'as': False,
+                  'bounds': [[None, ['bin', '\\', ['lit', '%', 7], operand('%', 0)]]],
+                  'plant': kind}
+            m = self.next_marker()
+            self.post_plant = [{'k': 'let', 'lv': ['idx', an, [['lit', '%', 1]]], 'e': ['lit', '%', 3]},
+                               {'k': 'print', 'marker': m,
+                                'items': [[['lit', '$', f'<{m}>'], ';'], [['idx', an, [['lit', '%', 1]]], '']]}]
+            self.last_repairs = repairs[-1:] if repairs else None
+            return pre, st
         if kind == 'div0_idiv':
             e = ['bin', '\\', ['lit', '%', 7], operand('%', 0)]
         elif kind == 'div0_mod':
@@ -1453,10 +1468,35 @@ class Gen:
                 e = ['bin', '*', ['par', e], ['lit', '%', 1]]
             else:
                 e = ['fn', 'abs', [e]]
-        form = form or r.choice(('let', 'let', 'print', 'cond'))
+        if form is None and kind != 'ovf_sngband':
+            form = r.choice(('let', 'let', 'print', 'cond', 'let', 'print', 'elseif', 'case', 'loop'))
+        form = form or 'let'
         t = self.fresh('t', ty)
         sc.vars[t] = ty
-        if form == 'let':
+        part = None
+        if form in ('elseif', 'case', 'loop') and ty in '%&!#':
+            # the failing expression sits on a line of a block statement that
+            # is not its first: an ELSEIF condition, a CASE test, a LOOP UNTIL
+            m1 = self.print_stmt(sc, 0)
+            m2 = self.print_stmt(sc, 0)
+            if form == 'elseif':
+                st = {'k': 'if', 'arms': [[['bin', '=', ['lit', '%', 1], ['lit', '%', 2]], [m1]],
+                                          [['bin', '>', e, ['lit', '%', 0]], [m2]]],
+                      'els': [self.print_stmt(sc, 0)] if r.random() < 0.5 else None}
+                part = 'arm1'
+            elif form == 'case':
+                tests = [['eq', e], ['eq', ['lit', '%', 5]]]
+                if r.random() < 0.5:
+                    tests.reverse()
+                st = {'k': 'select', 'e': ['lit', '%', r.choice((5, 6))],
+                      'cases': [[[['eq', ['lit', '%', 99]]], [m1]], [tests, [m2]]],
+                      'els': [self.print_stmt(sc, 0)] if r.random() < 0.5 else None}
+                part = 'case1'
+            else:
+                st = {'k': 'do', 'pre': None, 'body': [m1],
+                      'post': ['until', ['bin', '>=', e, ['lit', '%', -30000]]]}
+                part = 'loop'
+        elif form == 'let' or form in ('elseif', 'case', 'loop'):
             st = {'k': 'let', 'lv': ['var', t], 'e': e}
         elif form == 'print':
             m = self.next_marker()
@@ -1466,6 +1506,8 @@ class Gen:
             st = {'k': 'if', 'arms': [[['bin', '>', e, ['lit', '%', 0]],
                                        [self.print_stmt(sc, 0)]]], 'els': None}
         st['plant'] = kind
+        if part:
+            st['plant_part'] = part
         # making the last operand harmless lets the statement succeed when it
         # is executed again (RESUME); literal operands cannot be repaired
         self.last_repairs = repairs[-1:] if (repairs and kind != 'ovf_neg') else \
@@ -1540,7 +1582,8 @@ class Gen:
             if onerr == 'goto_resume':
                 kind = r.choice([k for k in self.PLANT_KINDS if k not in ('out_of_data', 'bad_data', 'data_ovf')])
             pre, st = self.plant(sc, kind=kind, fold=False if onerr == 'goto_resume' else None,
-                                 form=r.choice(('let', 'let', 'print')) if self.p.get('plants') else None)
+                                 form=r.choice(('let', 'let', 'print', 'let', 'print', 'cond', 'elseif',
+                                                'case', 'loop')) if self.p.get('plants') else None)
             site = body
             if self.p.get('plants') and r.random() < 0.5:
                 # inside a nested block or on a multi-statement line
@@ -1561,6 +1604,8 @@ class Gen:
             if st['k'] == 'read' and st['plant'] == 'out_of_data':
                 site, i = body, len(body)
             site.insert(i, st)
+            for j, ps in enumerate(getattr(self, 'post_plant', None) or []):
+                site.insert(i + 1 + j, ps)
             # set-up goes to the very front: a GOTO must not skip a DIM (a
             # static array whose DIM never executed is outside the subset) -
             # except, in the 'any' family, now and then
@@ -1606,6 +1651,12 @@ class Gen:
             m = self.next_marker()
             main.append({'k': 'print', 'items': [[['lit', '$', f'<E{m}>'], ';'],
                                                  [['dev', 'err', []], '']], 'marker': m})
+            if self.procs and r.random() < 0.35:
+                # the handler calls a procedure before it resumes
+                self.stmt_budget = 2
+                c = self.call_stmt(sc) if r.random() < 0.6 else self.func_call_stmt(sc)
+                if c is not None:
+                    main.append(c)
             if onerr == 'goto_next':
                 main.append({'k': 'resume', 'next': True})
             elif onerr == 'goto_resume':
@@ -1669,13 +1720,15 @@ def gen_program(r, prof):
     prog = g.program()
     meta = {'input_specs': g.input_specs, 'n_data': len(g.data_items),
             'markers': g.marker}
-    meta['plants'] = [{'id': x['id'], 'kind': x['plant'],
+    def pid(x):
+        return f"{x['id']}.{x['plant_part']}" if x.get('plant_part') else x['id']
+    meta['plants'] = [{'id': pid(x), 'kind': x['plant'],
                        'trap': Gen.PLANT_TRAP[x['plant'].split('_')[0]]}
                       for x in getattr(g, 'plants', [])]
     st = getattr(g, 'planted', None)
     if st is not None:
         k = st['plant']
-        meta['plant'] = {'id': st['id'], 'kind': k,
+        meta['plant'] = {'id': pid(st), 'kind': k,
                          'trap': Gen.PLANT_TRAP[k.split('_')[0]]}
     return prog, meta
 
